@@ -5,6 +5,7 @@ of the Python client (async: BlockingIOError -> wait for readability -> retry, u
 The judge is TraceSession.tla, as for the raw replay."""
 import asyncio, json
 from . import apidrv, scripts, agent as ag
+from .project import proj, exc_info
 
 TIMEOUT = 0.2
 GAP = 0.015      # odd variants: the agent spaces the datagrams of one answer, so that the client handles them one wake-up at a time
@@ -130,4 +131,84 @@ def run_all(rec, items):
         runs.append((a, b, dict(client=client, cfgname=cn, plan=plan, variant=variant)))
     if pending_async:
         runs += asyncio.run(go(pending_async))
+    return runs
+
+
+# ---------------------------------------------------------------------------------------------------------------
+# single exchanges through the public API: one call, the agent answers with the datagrams `answer(cfg, req)` builds
+
+def _one_call(api, op, oids):
+    api.ctx.walk = False
+    api.ctx.oids = list(oids)
+    if op == "get":
+        return api.session.get(oids[0])
+    return api.session.get_many(list(oids))
+
+
+def _api_outcome(api, op, r, e):
+    """what the PUBLIC call returned / raised (the socket-level proxy is silenced): the Python layer is inside the judged step"""
+    res, exc, bases = {"t": "none"}, "", []
+    if e is None:
+        res = proj(r)
+    else:
+        exc, bases, _ = exc_info(e)
+    api.rec2.emit(dict(ev="Recv", sid=api.sid, op=op, res=res, exc=exc, bases=bases, interp=list(api.proxy.recv_interp)))
+
+
+def exchange_sync(rec, cfg, op, oids, answer, timeout=TIMEOUT, interp=(), **kw):
+    a = rec.n
+    holder = {}
+    api = apidrv.SyncApi(rec, cfg, lambda req: holder["r"](req), timeout=timeout, engine_given=True, **kw)
+    api.proxy.silent = True
+    api.proxy.recv_interp = list(interp)
+    holder["r"] = lambda req: [] if req.broken else [(d, []) for d in answer(api.cfgref[0], req)]
+    try:
+        r = _one_call(api, op, oids)
+        _api_outcome(api, op, r, None)
+    except BaseException as e:  # noqa - recorded
+        _api_outcome(api, op, None, e)
+    api.close()
+    return a, rec.n
+
+
+async def exchange_async(rec, cfg, op, oids, answer, timeout=TIMEOUT, interp=(), **kw):
+    a = rec.n
+    holder = {}
+    api = await apidrv.AsyncApi.create(rec, cfg, lambda req: holder["r"](req), timeout=timeout, engine_given=True, **kw)
+    api.proxy.silent = True
+    api.proxy.recv_interp = list(interp)
+    holder["r"] = lambda req: [] if req.broken else [(d, []) for d in answer(api.cfgref[0], req)]
+    try:
+        r = await _one_call(api, op, oids)
+        _api_outcome(api, op, r, None)
+    except BaseException as e:  # noqa
+        _api_outcome(api, op, None, e)
+    api.close()
+    return a, rec.n
+
+
+def exchanges(rec, items):
+    """items: list of (client, cfg, op, oids, answer, info[, interp]) -> runs [(a, b, info)] in order (async items share one event loop per stretch)"""
+    runs = []
+
+    async def go(batch):
+        out = []
+        for it in batch:
+            client, cfg, op, oids, answer, info = it[:6]
+            a, b = await exchange_async(rec, cfg, op, oids, answer, interp=it[6] if len(it) > 6 else ())
+            out.append((a, b, info))
+        return out
+    pend = []
+    for it in items:
+        if it[0] == "async":
+            pend.append(it)
+            continue
+        if pend:
+            runs += asyncio.run(go(pend))
+            pend = []
+        client, cfg, op, oids, answer, info = it[:6]
+        a, b = exchange_sync(rec, cfg, op, oids, answer, interp=it[6] if len(it) > 6 else ())
+        runs.append((a, b, info))
+    if pend:
+        runs += asyncio.run(go(pend))
     return runs
